@@ -5,7 +5,9 @@ CONSTANTS MaxS
 VARIABLES c, out
 vars == <<c, out>>
 Spacings(su, sv) == {s \in 1..(su - 1) : (su - 1) % s = 0 /\ (sv - 1) % s = 0}
-Init == c \in {[su |-> a, sv |-> b] : a \in 2..MaxS, b \in 2..MaxS} /\ out = [op |-> "init"]
+\* a few larger lattices (sample sizes at which accumulated floating-point parameters overshoot the domain end in the code)
+Extra == {[su |-> 10, sv |-> 12], [su |-> 12, sv |-> 10], [su |-> 13, sv |-> 4]}
+Init == c \in ({[su |-> a, sv |-> b] : a \in 2..MaxS, b \in 2..MaxS} \cup Extra) /\ out = [op |-> "init"]
 ATri(s) == /\ out.op = "init"
    /\ LET nu == NV(c.su, s) nv == NV(c.sv, s) IN
       out' = [op |-> "tri", s |-> s, nu |-> nu, nv |-> nv,
